@@ -65,6 +65,8 @@ struct Profile {
     bool way_locations = false;    // node refs of ways carry locations
     int order = 0;                 // 0: sorted by type n,w,r,(c); 1: types alternate (many PBF blocks); 2: random
     bool big_ids = true;
+    bool wild_locations = false;   // visible nodes without location
+    bool invalid_coordinates = false;   // ... and coordinates outside +-180/+-90 (only PBF can express them; XML and OPL write degrees and reject them on reading)
     uint32_t max_tags = 5;
     uint32_t max_refs = 12;
 };
@@ -166,6 +168,12 @@ inline Obj gen_obj(char type, int64_t base_id, const Profile& p) {
         o.has_loc = o.visible ? true : (sim::choose(s, 2) != 0);
         o.x = gen_coord(s, 1800000000);
         o.y = gen_coord(s, 900000000);
+        if (p.wild_locations) {
+            // the value domain of C01: "locations undefined or any int32 pair"
+            const uint32_t w = sim::choose(s, 12);
+            if (w == 1) { o.has_loc = false; }                       // visible node without a location
+            if (w == 2 && p.invalid_coordinates) { o.x = static_cast<int32_t>(sim::choose(s, 0xffffffffU)); o.y = static_cast<int32_t>(sim::choose(s, 0xffffffffU)); } // outside +-180/+-90 too
+        }
     } else if (type == 'w') {
         const uint32_t n = sim::choose(s, p.max_refs + 1);
         for (uint32_t i = 0; i < n; ++i) {
@@ -543,6 +551,7 @@ struct Rec {
 
 inline Rec make_rec(const osmium::OSMEntity& e) {
     Rec r;
+    sim::progress(); // an object reached the consumer
     std::string& o = r.content;
     switch (e.type()) {
         case osmium::item_type::node: {
@@ -601,6 +610,7 @@ inline Rec make_rec(const osmium::OSMEntity& e) {
 
 inline unsigned digest_recs(const osmium::memory::Buffer& buffer, std::vector<Rec>& out) {
     unsigned mask = 0;
+    sim::progress(); // a buffer reached the consumer
     for (const auto& item : buffer) {
         switch (item.type()) {
             case osmium::item_type::node:
